@@ -18,6 +18,19 @@ T = 'fsic.tools'
 Q = f'{T}.symbols_to_graph'
 
 
+def builder(R):
+    """(qualified name of the function that builds the graph, the call of it in symbols_to_graph or None): the graph may
+    be built in symbols_to_graph itself or in a module-level helper it calls (possibly memoised, its result copied)."""
+    fi = R.repo.func(Q)
+    has_graph = lambda node: any(is_call(x, 'nx.DiGraph', 'networkx.DiGraph', 'DiGraph', 'nx.Graph') for x in ast.walk(node))
+    if has_graph(fi.node):
+        return Q, None
+    for x in ast.walk(fi.node):
+        if isinstance(x, ast.Call) and isinstance(x.func, ast.Name) and f'{T}.{x.func.id}' in R.repo.functions and has_graph(R.repo.functions[f'{T}.{x.func.id}'].node):
+            return f'{T}.{x.func.id}', x
+    return Q, None
+
+
 def r1_same_tokeniser(R) -> None:
     mod = R.repo.module(T)
     imported = False
@@ -29,7 +42,8 @@ def r1_same_tokeniser(R) -> None:
                and any(isinstance(x, ast.Name) and x.id == 'term_re' and isinstance(x.ctx, ast.Store) for x in ast.walk(s))]
     R.check(imported and not rebound, T, 'term_re-imported', "the graph tool tokenises with the parser's own term_re",
             'fsic/tools.py does not import `term_re` from the parser (or rebinds it)')
-    f = Fn(R, Q)
+    BQ, bcall = builder(R)
+    f = Fn(R, BQ)
     local = [n for n in f.assigns_to('term_re')]
     R.check(not local, Q, 'term_re-local', 'no private re-definition of the term regex', 'symbols_to_graph defines its own `term_re`', where=f.fi.where)
     # every regex used to tokenise is term_re
@@ -53,8 +67,19 @@ def r1_same_tokeniser(R) -> None:
     if sp and sp[0].loops:
         lp = f.cfg.nodes[sp[0].loops[-1]]
         src = f.expand(lp.id, lp.ast.iter, comps=True)
-        shown = text(src)[:70]
         sym = (f.fi.params() + ['symbols'])[0]
+        if bcall is not None and isinstance(src, ast.Name) and src.id in f.fi.params():
+            # the helper iterates one of its parameters: what symbols_to_graph passes for it
+            outer = Fn(R, Q)
+            k_ = f.fi.params().index(src.id)
+            arg = bcall.args[k_] if k_ < len(bcall.args) else kwarg(bcall, src.id)
+            at = [n_ for n_ in outer.cfg.nodes if n_.ast is not None and any(y is bcall for y in ast.walk(n_.ast))]
+            if arg is not None and at:
+                src = outer.expand(at[0].id, arg, comps=True)
+                while is_call(src, 'tuple', 'list') and len(src.args) == 1:
+                    src = src.args[0]
+                sym = (outer.fi.params() + ['symbols'])[0]
+        shown = text(src)[:70]
         split_src = sp[0].ast.value.func.value
         if isinstance(src, (ast.ListComp, ast.GeneratorExp)) and len(src.generators) == 1:
             g_ = src.generators[0]
@@ -65,8 +90,39 @@ def r1_same_tokeniser(R) -> None:
             where=f.fi.where)
 
 
+def r4_fresh_graph(R) -> None:
+    """Each call hands out a graph of its own: a graph remembered between calls (memoised function, module-level cache)
+    and returned uncopied is changed for every later caller by whoever edits it (removing nodes, relabelling)."""
+    CACHES = ('functools.lru_cache', 'lru_cache', 'functools.cache', 'cache')
+    BQ, bcall = builder(R)
+    for q_ in {Q, BQ}:
+        fi = R.repo.func(q_)
+        memo = [d for d in fi.node.decorator_list if text(d.func if isinstance(d, ast.Call) else d) in CACHES]
+        if not memo:
+            R.ok(q_, 'not memoised')
+            continue
+        if q_ == Q:
+            R.violation(Q, 'graph-memoised', f'symbols_to_graph is memoised ({text(memo[0])[:40]}): every caller with the same symbols receives the same mutable graph', where=fi.where)
+            continue
+        # the helper is memoised: every value symbols_to_graph returns from it must be a copy
+        f = Fn(R, Q)
+        for r in f.returns():
+            v = r.ast.value
+            if v is None:
+                continue
+            v = f.expand(r.id, v)
+            uses = [x for x in ast.walk(v) if isinstance(x, ast.Call) and isinstance(x.func, ast.Name) and f'{T}.{x.func.id}' == BQ]
+            for u in uses:
+                copied = any((is_call(c_, 'copy.deepcopy', 'deepcopy') and c_.args and any(y is u for y in ast.walk(c_.args[0])))
+                             or (method_call(c_, 'copy') and any(y is u for y in ast.walk(c_.func.value))) for c_ in ast.walk(v))
+                R.check(copied, Q, f'graph-shared:{text(v)[:50]}', 'the memoised graph is copied before it is handed out',
+                        f'`return {text(v)[:60]}` hands out the graph kept by the memoised `{BQ.split(".")[-1]}()` itself: a caller that edits it (removes nodes, adds attributes) '
+                        f'changes what every later call with the same equations returns', where=f.where(r))
+
+
 def r2_nodes_edges(R) -> None:
-    f = Fn(R, Q)
+    BQ, _bcall = builder(R)
+    f = Fn(R, BQ)
     sp = [n for n in f.cfg.nodes if n.kind == 'stmt' and isinstance(n.ast, ast.Assign) and method_call(n.ast.value, 'split')
           and isinstance(n.ast.targets[0], ast.Tuple)]
     if not sp:
@@ -92,7 +148,18 @@ def r2_nodes_edges(R) -> None:
     if R.require(Q, len(nodes), 'G.add_nodes_from(<lhs terms>, equation=e)', fi=f.fi, pred=lambda x: method_call(x, 'add_nodes_from', 'add_node')):
         c = nodes[0]
         ev_ = text(f.cfg.nodes[sp[0].loops[-1]].ast.target) if sp[0].loops else 'e'
-        R.check(text(c.args[0]) == ln and kwarg(c, 'equation') is not None and text(kwarg(c, 'equation')) == ev_, Q, 'nodes:' + text(c),
+        direct = text(c.args[0]) == ln and kwarg(c, 'equation') is not None and text(kwarg(c, 'equation')) == ev_
+        # or: the nodes first, then the attribute for all of them at once
+        later = False
+        if text(c.args[0]) == ln and kwarg(c, 'equation') is None:
+            for x in ast.walk(f.fi.node):
+                if is_call(x, 'nx.set_node_attributes', 'networkx.set_node_attributes') and len(x.args) >= 2 and (is_const(kwarg(x, 'name'), 'equation') or (len(x.args) > 2 and is_const(x.args[2], 'equation'))):
+                    m_ = x.args[1]
+                    if is_call(m_, 'dict.fromkeys') and len(m_.args) == 2 and text(m_.args[0]) == ln and text(m_.args[1]) == ev_:
+                        later = True
+                    if isinstance(m_, ast.DictComp) and len(m_.generators) == 1 and text(m_.generators[0].iter) == ln and text(m_.key) == text(m_.generators[0].target) and text(m_.value) == ev_:
+                        later = True
+        R.check(direct or later, Q, 'nodes:' + text(c),
                 'one node per left-hand term, carrying its equation', f'`{text(c)}` does not add the left-hand terms with equation=e',
                 where=f'{f.fi.module.relpath}:{c.lineno}')
     edges = [x for x in ast.walk(f.fi.node) if method_call(x, 'add_edge', 'add_edges_from')]
@@ -111,6 +178,11 @@ def r2_nodes_edges(R) -> None:
             cur = par.get(id(cur))
         if c.func.attr == 'add_edges_from':
             ge = c.args[0] if c.args else None
+            if is_call(ge, 'itertools.product', 'product') and len(ge.args) == 2 and not ge.keywords:
+                # product(A, B) yields (a, b) for a in A for b in B
+                ge = ast.GeneratorExp(elt=ast.Tuple(elts=[ast.Name(id='_a', ctx=ast.Load()), ast.Name(id='_b', ctx=ast.Load())], ctx=ast.Load()),
+                                      generators=[ast.comprehension(target=ast.Name(id='_a', ctx=ast.Store()), iter=ge.args[0], ifs=[], is_async=0),
+                                                  ast.comprehension(target=ast.Name(id='_b', ctx=ast.Store()), iter=ge.args[1], ifs=[], is_async=0)])
             if not (isinstance(ge, (ast.GeneratorExp, ast.ListComp)) and isinstance(ge.elt, ast.Tuple) and len(ge.elt.elts) == 2 and not any(g_.ifs for g_ in ge.generators)):
                 raise Unsupported(f'{Q}: `{text(c)[:60]}` is not add_edges_from((source, target) for ...)')
             for g_ in ge.generators:
@@ -137,4 +209,5 @@ def run(R) -> None:
     )
     R.rule('C20.R1', lambda: r1_same_tokeniser(R))
     R.rule('C20.R2', lambda: r2_nodes_edges(R))
+    R.rule('C20.R4', lambda: r4_fresh_graph(R))
     R.rule('C20.R3', lambda: (c01.r3_one_template(R), c01.r1_term_rendering(R)))
